@@ -7,6 +7,8 @@
 //!   mode A: runs 1 (as scripted), 2 (same again, same process), 3 (decorrelated Rust types
 //!           and entry points) of every history, then the conversions
 //!   mode B: run 4 = run 1 again, in this separately started process
+//!   mode F<n>: run n (5, 6, ...) = the requests of run 1 again on ANOTHER HOST (this binary is then
+//!           interpreted by Miri for a foreign target): layout and Display only, no code generation
 
 use std::{
     cell::RefCell,
@@ -62,6 +64,8 @@ impl TypeResolver for Scripted {
         self.next.borrow().as_ref().expect("scripted").clone()
     }
 }
+
+static LAYOUT_ONLY: std::sync::atomic::AtomicBool = std::sync::atomic::AtomicBool::new(false);
 
 fn off(o: usize) -> i64 {
     if o == usize::MAX {
@@ -533,16 +537,24 @@ fn build_event_native(
             generate(def, &GeneratorConfig::default_with_custom_generators(custom))
         }))
     };
-    let code0 = gen(vec![]);
-    let code1 = gen(vec![Box::new(CloneImplGenerator), Box::new(SerdeImplGenerator)]);
+    let layout_only = LAYOUT_ONLY.load(std::sync::atomic::Ordering::Relaxed);
+    let (code0, code1) = if layout_only {
+        (Ok("skipped".to_owned()), Ok("skipped".to_owned()))
+    } else {
+        (
+            gen(vec![]),
+            gen(vec![Box::new(CloneImplGenerator), Box::new(SerdeImplGenerator)]),
+        )
+    };
     let (cap, aligns) = code0.as_ref().map_or((-1, vec![]), |c| parse_consts(c));
     let mut ev = json!({"ev":evname,"res":"ok","variants":variants,"data":data,"voffs":voffs,
         "max_size":max_size,"max_align":max_align,
         "display": if display.is_ok() {"ok"} else {"panic"},
         "generate": if code0.is_ok() && code1.is_ok() {"ok"} else {"panic"},
         "pub_cap":cap,"pub_aligns":aligns,
-        "code_hash": format!("{}-{}", code0.as_ref().map_or("panic".into(), |c| fnv(c)),
-                              code1.as_ref().map_or("panic".into(), |c| fnv(c))),
+        "code_hash": if layout_only { "skipped".to_owned() } else {
+            format!("{}-{}", code0.as_ref().map_or("panic".into(), |c| fnv(c)),
+                              code1.as_ref().map_or("panic".into(), |c| fnv(c))) },
         "display_hash": display.as_ref().map_or("panic".into(), |c| fnv(c))});
     for (k, v) in extra.as_object().unwrap() {
         ev[k] = v.clone();
@@ -705,7 +717,9 @@ fn run_history(h: &Value, run: u64, with_converts: bool, out: &mut Out) {
     let calls = h["calls"].as_array().unwrap();
     let wants_build = calls.last().map_or(false, |c| c["op"] == "build");
     out.ev(json!({"ev":"reset","kind":kind,"hid":h["hid"],"group":h["group"],"run":run,
-        "pid": std::process::id()}));
+        "pid": std::process::id(),
+        "host": {"ptr": std::mem::size_of::<usize>(), "a64": std::mem::align_of::<u64>(),
+                 "a128": std::mem::align_of::<u128>(), "big_endian": cfg!(target_endian = "big")}}));
     let resolver = Scripted {
         next: RefCell::new(None),
     };
@@ -778,6 +792,10 @@ fn main() {
             }
             "B" => run_history(&h, 4, true, &mut out),
             "1" => run_history(&h, 1, true, &mut out),
+            f if f.starts_with('F') => {
+                LAYOUT_ONLY.store(true, std::sync::atomic::Ordering::Relaxed);
+                run_history(&h, f[1..].parse().expect("run number"), false, &mut out)
+            }
             other => panic!("mode {}", other),
         }
     }
